@@ -353,6 +353,16 @@ def p3_fn(out, spec, cfg, clauses, known_pair=None):
     out.cov.setdefault("dumps", []).append({"cfg": cfg, "behaviours": st["behaviours"], "replayed": drift["n"], "cached": st["cached"]})
 
 
+def big_family(out, clauses):
+    """Large structured inputs (hundreds to thousands of items) as hook traces."""
+    trace = drive(out, "big")
+    n = sum(1 for st, evs, ret in scan_hook_cases(trace) if evs is not None)
+    out.add("evaluations", n)
+    out.add("large_input_cases", n)
+    judge(out, "big", trace, "TraceHook", clauses)
+    out.add("traces_validated_against_impl", n)
+
+
 def builder_family(out, clauses):
     """Histories of builder calls (TextDiffConfig / UnifiedDiff setters in any order), validated
     event by event against spec/abstract/Builder.tla."""
@@ -428,6 +438,7 @@ def c01(out):
     out.add("traces_validated_against_impl", n)
     out.add("states", out.cov.get("trace_states", 0))
     out.add("transitions", out.cov.get("trace_lines_validated", 0))
+    big_family(out, C01_CLAUSES)
     p2(out, "MCAlgs.tla", alg_cfgs(out, ["myers", "lcs", "patience"]))
     p3_alg(out, ["myers", "lcs", "patience"], C01_CLAUSES, faults=False)
     finish_counts(out)
@@ -565,6 +576,8 @@ def c03(out):
         if r["alg"] == "patience" or r["fuel"] != -2:
             return False
         a, b = r["old"][r["os"]:r["oe"]], r["new"][r["ns"]:r["ne"]]
+        if len(a) * len(b) > 250000:
+            return False
         L = lcs_len(a, b)
         return 0 < L < min(len(a), len(b))
     ops_check(out, {"minimal", "ratio_formula"}, nt,
@@ -577,6 +590,7 @@ def c03(out):
     out.add("evaluations", n)
     judge(out, "c01", trace, "TraceHook", {"minimal"})
     out.add("traces_validated_against_impl", n)
+    big_family(out, {"minimal"})
     p2(out, "MCAlgs.tla", alg_cfgs(out, ["myers", "lcs"]))
     p2(out, "MCCompact.tla", ["MCCompact"])
     p3_alg(out, ["myers", "lcs"], {"minimal"}, faults=False)
@@ -589,6 +603,8 @@ def c15(out):
         if r["alg"] != "patience" or r["fuel"] != -2:
             return False
         a, b = r["old"][r["os"]:r["oe"]], r["new"][r["ns"]:r["ne"]]
+        if len(a) + len(b) > 2000:
+            return False
         u = [x for x in a if a.count(x) == 1 and b.count(x) == 1]
         v = [x for x in b if x in u]
         return len(u) >= 2 and u != v and lcs_len(u, v) >= 2
@@ -602,6 +618,7 @@ def c15(out):
     out.add("evaluations", n)
     judge(out, "c01", trace, "TraceHook", {"anchors"})
     out.add("traces_validated_against_impl", n)
+    big_family(out, {"anchors"})
     p2(out, "MCAlgs.tla", alg_cfgs(out, ["patience"]))
     p3_alg(out, ["patience"], {"anchors"}, faults=False)
     finish_counts(out)
@@ -784,6 +801,7 @@ def c19(out):
     out.add("evaluations", n)
     judge(out, "c01", trace, "TraceHook", {"work"})
     out.add("traces_validated_against_impl", n)
+    big_family(out, {"work"})
     out.add("states", out.cov.get("trace_states", 0))
     p2(out, "MCAlgs.tla", alg_cfgs(out, ["myers", "patience"]))
     p3_alg(out, ["myers", "patience"], {"work"}, faults=False)
